@@ -53,7 +53,7 @@ func TestUnsupported(t *testing.T) {
 	verif, _ := filepath.Abs("../..")
 	cases := map[string]string{
 		"go builtin":      "package lib\nfunc F() { go println() }\n",
-		"range over chan": "package lib\nfunc F(c chan int) { for range c {} }\n",
+		"range over chan": "package lib\nfunc G() chan int { return nil }\nfunc F() { for range G() {} }\n",
 		"blocking select": "package lib\nfunc F(c chan int) { select { case <-c: } }\n",
 		"time.Sleep":      "package lib\nimport \"time\"\nfunc F() { time.Sleep(1) }\n",
 
